@@ -47,7 +47,7 @@ type directive struct {
 }
 
 func harnessFiles(relPkg string) []string {
-	fs, _ := filepath.Glob(filepath.Join(verifDir, "harness", relPkg, "*.go"))
+	fs, _ := filepath.Glob(filepath.Join(srcDir(), "harness", relPkg, "*.go"))
 	sort.Strings(fs)
 	return fs
 }
@@ -80,7 +80,7 @@ func overlayFiles(relPkg string, withTest bool, harnessNames []string) (map[stri
 		ov[filepath.Join(repoDir, relPkg, filepath.Base(f))] = b
 	}
 	ov[filepath.Join(repoDir, relPkg, "zz_verif_api.go")] = []byte(strings.ReplaceAll(apiTemplate, "__PKG__", pkgName))
-	if mb, err := os.ReadFile(filepath.Join(verifDir, "models", "models.go.tmpl")); err == nil {
+	if mb, err := os.ReadFile(filepath.Join(srcDir(), "models", "models.go.tmpl")); err == nil {
 		ov[filepath.Join(repoDir, relPkg, "zz_verif_models.go")] = []byte(strings.ReplaceAll(string(mb), "__PKG__", pkgName))
 	}
 	if withTest {
@@ -168,6 +168,7 @@ type HarnessSpec struct {
 	AbstractBig bool // allocations of non-constant size become length-abstracted arrays (contents not tracked)
 	FeasSecs  int // budget (seconds) for solver feasibility queries during symbolic execution (default 40)
 	HookLimit int // how many times vOnBlock may run at one blocking point
+	QuickSolve bool // thorough tier: this harness is inherited from the quick list and keeps the quick solver settings
 	NoDedupe  bool // map range: do not de-duplicate keys (only for idempotent set-algebra loops, stated as a cut)
 	Solvers   []string
 	CaseGen   func() []map[string]int64 `json:"-"` // case split given as an explicit list (alternative to Split)
@@ -452,6 +453,11 @@ func runNative(rf *replayFile, path string, timeout time.Duration) (string, stri
 	if strings.Contains(s, "panic: test timed out") {
 		return "timeout", s
 	}
+	// a panic in a goroutine started by the code under test takes the whole test process down before the
+	// result line is printed
+	if m := regexp.MustCompile(`(?m)^panic: (.*)$`).FindStringSubmatch(s); m != nil {
+		return "panic (process crashed) " + strings.TrimSpace(m[1]), s
+	}
 	return "", s
 }
 
@@ -587,6 +593,15 @@ func main() {
 	default:
 		fatal("unknown command %s", os.Args[1])
 	}
+}
+
+// srcDir: where harness/ and models/ are read from (development aid VERIF_SRC: a staging copy, so that
+// harnesses can be edited while a long run uses the committed ones)
+func srcDir() string {
+	if d := os.Getenv("VERIF_SRC"); d != "" {
+		return d
+	}
+	return verifDir
 }
 
 var sweepSpec string
